@@ -82,11 +82,71 @@ class Module:
         self.relpath = relpath
         self.source = source
         self.lines = source.splitlines()
-        self.tree = ast.parse(source, filename=path)
+        self.tree = canonicalise(ast.parse(source, filename=path))
         self.funcs: dict[str, Func] = {}  # top-level functions by name
         self.classes: dict[str, Class] = {}
         self.imports: dict[str, str] = {}  # local alias -> dotted target
         self.digest = hashlib.sha256(source.encode()).hexdigest()[:16]
+
+
+_MIRROR_OPS = {ast.Lt: ast.Gt, ast.Gt: ast.Lt, ast.LtE: ast.GtE, ast.GtE: ast.LtE, ast.Eq: ast.Eq, ast.NotEq: ast.NotEq,
+               ast.Is: ast.Is, ast.IsNot: ast.IsNot}
+
+
+def _const_like(e: ast.AST) -> bool:
+    """literals, -literals, None, UPPER_CASE names and Enum-style members (TrialState.COMPLETE, errno.EEXIST)"""
+    if isinstance(e, ast.Constant):
+        return True
+    if isinstance(e, ast.UnaryOp) and isinstance(e.op, (ast.USub, ast.UAdd)) and isinstance(e.operand, ast.Constant):
+        return True
+    if isinstance(e, ast.Name):
+        return e.id.isupper()
+    if isinstance(e, ast.Attribute):
+        return e.attr.isupper() and not isinstance(e.value, ast.Call)
+    if isinstance(e, (ast.Tuple, ast.List, ast.Set)):
+        return all(_const_like(x) for x in e.elts)
+    return False
+
+
+class _Canon(ast.NodeTransformer):
+    """One canonical spelling for constructs a maintainer may write either way, applied to every module
+    before any rule looks at it - so that no rule can depend on which spelling the source uses:
+
+      * a single-operator comparison puts the constant-like operand (literal, None, UPPER_CASE name, Enum
+        member) on the right; if both or neither operand is constant-like the operands are ordered by
+        their text (`b > a` and `a < b` become the same node);
+      * `if not c: A else: B` becomes `if c: B else: A` (also for conditional expressions).
+
+    Line numbers of the operands are kept, so reports still point at the source line."""
+
+    def visit_Compare(self, node):
+        self.generic_visit(node)
+        if len(node.ops) == 1 and type(node.ops[0]) in _MIRROR_OPS:
+            l, r = node.left, node.comparators[0]
+            cl, cr = _const_like(l), _const_like(r)
+            swap = (cl and not cr) or (cl == cr and ast.unparse(l) > ast.unparse(r))
+            if swap:
+                new = ast.Compare(left=r, ops=[_MIRROR_OPS[type(node.ops[0])]()], comparators=[l])
+                return ast.copy_location(new, node)
+        return node
+
+    def visit_If(self, node):
+        self.generic_visit(node)
+        if node.orelse and isinstance(node.test, ast.UnaryOp) and isinstance(node.test.op, ast.Not):
+            node.test, node.body, node.orelse = node.test.operand, node.orelse, node.body
+        return node
+
+    def visit_IfExp(self, node):
+        self.generic_visit(node)
+        if isinstance(node.test, ast.UnaryOp) and isinstance(node.test.op, ast.Not):
+            node.test, node.body, node.orelse = node.test.operand, node.orelse, node.body
+        return node
+
+
+def canonicalise(tree: ast.AST) -> ast.AST:
+    tree = _Canon().visit(tree)
+    ast.fix_missing_locations(tree)
+    return tree
 
 
 def dotted(node) -> str | None:
